@@ -80,7 +80,10 @@ pub fn valpat(u: &mut Unstructured) -> ValPat {
 }
 
 pub fn prov(u: &mut Unstructured) -> Prov {
-    match below(u, 16) {
+    match below(u, 19) {
+        16 => Prov::AddVec(below(u, NT as usize) as Tid),
+        17 => Prov::SubNat(nat_ty(u)),
+        18 => Prov::OrLonger(below(u, NT as usize) as Tid),
         0..=4 => Prov::Canon,
         5 => Prov::FromBinary,
         6 => Prov::Pushed,
